@@ -1,6 +1,7 @@
 import AmaranthVerif.Proofs.Lowering
 import AmaranthVerif.Proofs.AssignBits5
 import AmaranthVerif.Proofs.ProcessSpec
+import AmaranthVerif.Proofs.ProcessModelSpec
 
 /-!
 # C02 — assignments and control flow: last active assignment wins, per bit
@@ -142,6 +143,22 @@ theorem comb_process (ctx : Ctx) (cur : Env) (hok : EnvOk ctx cur) (inits : Env)
         if ibit ((stmtMask ctx body (List.replicate ctx.length 0)).get i) b then bitAt inits i b else bitAt acc i b :=
   comb_process_bits ctx cur hok inits hI body acc hC hA htg i b hi hb
 
+/-- **Model = Spec for one synchronous step.** What the driver evaluates as the model of a synchronous process at an
+active edge without reset (`syncProcess`: the lowered statements run on copies, committed through the masks) is what it
+evaluates as the Spec (`progStep`: the program's active writes on the current values), for every program and state. The
+correspondence check compares both with the simulator; this theorem says they cannot differ from each other. -/
+theorem model_eq_spec_sync (ctx : Ctx) (cur : Env) (hok : EnvOk ctx cur) (hC : EnvN ctx cur) (inits : Env)
+    (rl : List Bool) (prog : List Prog) (h : Prog.listOk ctx prog = true)
+    (htg : ∀ e ∈ stmtTargets (lowerList ctx prog), e.twf ctx = true ∧ e.noAlias ctx cur)
+    (ht : ∀ w ∈ Prog.listWrites ctx cur prog, w.1.twf ctx = true ∧ w.1.noAlias ctx cur) :
+    syncProcess ctx inits rl none (lowerList ctx prog) cur = progStep ctx prog cur cur :=
+  sync_step_model_eq_spec ctx cur hok hC inits rl prog h htg ht
+
+/-- the processes the driver runs are the commit of the pending values the theorems speak about (by definition) -/
+theorem driver_processes (ctx : Ctx) (inits : Env) (rl : List Bool) (rst : Option Int) (body : Stmt) (cur : Env) :
+    syncProcess ctx inits rl rst body cur = commitInto ctx body (syncNext ctx inits rl rst body cur) cur ∧
+    combProcess ctx inits body cur = commitInto ctx body (combNext ctx inits body cur) cur := ⟨rfl, rfl⟩
+
 /-! ### F9: without `noAlias` the compiled assignment is not the Spec's
 
 `Cat(t, t).bit_select(o, 1).eq(1)` with `t = 0`, `o = 0`: the Spec (and the testbench, and the netlist)
@@ -176,5 +193,7 @@ example : ∀ w ∈ Prog.listWrites exCtx exEnv exProg, w.1.twf exCtx = true := 
 example : commitInto exCtx (lowerList exCtx exProg) (execRtl exCtx exEnv (lowerList exCtx exProg) exEnv) exEnv
     = [2, -3, 5, 7] := by decide
 example : (stmtMask exCtx (lowerList exCtx exProg) [0, 0, 0, 0]) = [0, 0, 15, 15] := by decide
+example : syncProcess exCtx [0, 0, 0, 0] [] none (lowerList exCtx exProg) exEnv = progStep exCtx exProg exEnv exEnv := by decide
+example : ∀ e ∈ stmtTargets (lowerList exCtx exProg), e.twf exCtx = true := by decide
 
 end Amaranth.C02
